@@ -11,5 +11,7 @@ uint8_t* ext_place(char place, long off, const uint8_t* bytes, size_t n);
 uint8_t* ext_source(const uint8_t* bytes, size_t n);
 int ext_call(void (*fn)(void*), void* ctx, char* status, size_t slen, uint8_t* arena);
 void ext_result(const char* status, uint64_t ret, long rc, uint64_t out, uint8_t* arena, size_t alen);
-#define EXT_MAXARENA (4 * 4096 - 64)
+uint8_t* ext_dest(int k, size_t cap, uint8_t fill);
+int ext_dest_dirty(int k, size_t cap, uint8_t fill);
+#define EXT_MAXARENA (18 * 4096 - 64)
 #endif
